@@ -711,3 +711,19 @@ func (P *Prog) stdCallbacks(c *ssa.CallCommon) []*ssa.Function {
 	}
 	return out
 }
+
+// osFlag returns the value of an os.O_* constant for the operating system the program was loaded for (the flag
+// bits differ between Linux, Darwin and Windows), falling back to the Linux value.
+func (P *Prog) osFlag(name string) int64 {
+	fallback := map[string]int64{"O_RDONLY": 0, "O_WRONLY": 1, "O_RDWR": 2, "O_APPEND": 0x400, "O_CREATE": 0x40, "O_EXCL": 0x80, "O_TRUNC": 0x200, "O_SYNC": 0x101000}
+	for _, p := range P.Pkgs {
+		if ip, ok := p.Imports["os"]; ok && ip.Types != nil {
+			if c, ok := ip.Types.Scope().Lookup(name).(*types.Const); ok {
+				if v, ok := constant.Int64Val(c.Val()); ok {
+					return v
+				}
+			}
+		}
+	}
+	return fallback[name]
+}
